@@ -203,8 +203,66 @@ def exception_safety(rng, tier, info):
     info["exception_safety_calls"] = n
 
 
+def module_sweep(rng, tier, info):
+    """EVERY public function of bip39.py and of the package's top level (found by introspection — also ones this harness
+    has never heard of) is called with well-formed values of the module's own vocabulary (valid sentences, entropy hex,
+    sizes, byte strings, words) in every parameter position; whatever the call does, afterwards the embedded word list
+    is still the official list and sentences are still encoded correctly"""
+    import inspect
+    import btc_hd_wallet
+    import btc_hd_wallet.bip39 as b39
+    from .c12 import mnemonic as indep_mnemonic
+    rb = lambda n: bytes(rng.getrandbits(8) for _ in range(n))
+    sent12, sent24 = indep_mnemonic(rb(16)), indep_mnemonic(rb(32))
+    pool = [sent12, sent24, " ".join(w_[:4] for w_ in sent12.split(" ")), sent12.upper(), rb(16).hex(), rb(32).hex(),
+            128, 256, 12, 24, 4, rb(16), rb(32), "abandon", "zoo", ["abandon", "zoo"], sent12.split(" "), "", 0, None]
+    fns = {}
+    for mod in (b39, btc_hd_wallet):
+        for nm, f in vars(mod).items():
+            if nm.startswith("_") or not inspect.isfunction(f) or not getattr(f, "__module__", "").startswith("btc_hd_wallet.bip39"):
+                continue
+            fns[nm] = f
+    n = 0
+    before = list(words())
+    for nm, f in sorted(fns.items()):
+        try:
+            params = [p_ for p_ in inspect.signature(f).parameters.values()
+                      if p_.kind in (p_.POSITIONAL_ONLY, p_.POSITIONAL_OR_KEYWORD)]
+        except (TypeError, ValueError):
+            continue
+        required = [p_ for p_ in params if p_.default is p_.empty]
+        arglists = [[]] if not required else []
+        if len(params) >= 1:
+            arglists += [[v_] for v_ in pool]
+        if len(params) >= 2:
+            arglists += [[rng.choice(pool), rng.choice(pool)] for _ in range(12)]
+        for args in arglists:
+            if len(args) < len(required):
+                continue
+            try:
+                with impl._Urandom(bytes(range(64))):
+                    f(*args)
+            except Exception:
+                pass
+            n += 1
+            now = words()
+            probe = "mn_from_ent " + sx(rb(rng.choice(SIZES)).hex())
+            msg = None if now == before else "the embedded word list changed (first difference at index %d: %r)" % next(
+                ((i, now[i] if i < len(now) else None) for i in range(max(len(now), len(before)))
+                 if i >= len(now) or i >= len(before) or now[i] != before[i]))
+            if msg is None:
+                msg = oracle(probe, impl.run(probe))
+            if msg:
+                yield ("# bip39.%s(%s) was called, then: %s" % (nm, ", ".join(repr(a_)[:60] for a_ in args), probe),
+                       "after that call: " + msg)
+                return
+    info["module_sweep_calls"] = n
+    info["module_sweep_functions"] = sorted(fns)
+
+
 def extra_checks(rng, tier, g, info):
     yield from exception_safety(rng, tier, info)
+    yield from module_sweep(rng, tier, info)
     wl = words()
     digest = hashlib.sha256(("\n".join(wl) + "\n").encode()).hexdigest()
     info["wordlist_sha256"] = digest
